@@ -61,3 +61,12 @@ Print Assumptions C11_clone_unwind.
    satisfies the contract *)
 Example C11_wf_example : wf (from_vec 2 [7; 8]%Z) /\ (forall l a c, l + a <= std_grow l a c).
 Proof. split; [apply from_vec_wf | intros; unfold std_grow; lia]. Qed.
+
+(* Clone::clone_from onto a destination holding ANY elements: the destination becomes a copy of the source (same contents and length, well-formed), the
+   destructor row is the destination's own elements followed by those of the replaced vector — nothing of the destination's old tail survives. *)
+Theorem C11_clone_from :
+  forall grow, (forall l a c, l + a <= grow l a c) ->
+  forall v dst, wf v ->
+  exists c, step grow v (VCloneFrom dst) = Ok (c, ([5%Z], dst ++ abs v)) /\ wf c /\ abs c = abs v.
+Proof. exact clone_from_copies. Qed.
+Print Assumptions C11_clone_from.
